@@ -134,6 +134,42 @@ theorem C05_refined_cancun (t : OpTable) (bs : List Blocks.Block) (anns : List A
   rw [execBlockC_eq E ω b.ops b.offset 0 entry hm] at ho
   exact C05_refined t bs anns hS g g' hg sat hsat hr i b a hb ha E ω entry hd o ho
 
+/-- execution paths of the REAL Cancun machine through blocks free of the four opcodes etk's table lacks -/
+inductive PathCancun (t : OpTable) (bs : List Blocks.Block) (anns : List Annotated) (E : Env) : Nat → List (Nat × Node) → Prop
+  | stop (i : Nat) : PathCancun t bs anns E i []
+  | step (i : Nat) (b : Blocks.Block) (a : Annotated) (ω : Nat → Word) (entry : List Word) (o : Outcome)
+      (hb : bs[i]? = some b) (ha : anns[i]? = some a) (hd : a.inputs ≤ entry.length)
+      (hm : ∀ x ∈ b.ops, x.op ∉ Evm.missingOps)
+      (ho : execBlockC E ω b.ops b.offset 0 entry = some o) (j : Nat) (rest : List (Nat × Node))
+      (hn : successor anns o = .block j) (hrest : PathCancun t bs anns E j rest) :
+      PathCancun t bs anns E i ((i, .block j) :: rest)
+  | last (i : Nat) (b : Blocks.Block) (a : Annotated) (ω : Nat → Word) (entry : List Word) (o : Outcome)
+      (hb : bs[i]? = some b) (ha : anns[i]? = some a) (hd : a.inputs ≤ entry.length)
+      (hm : ∀ x ∈ b.ops, x.op ∉ Evm.missingOps)
+      (ho : execBlockC E ω b.ops b.offset 0 entry = some o) (n : Node) (hn : successor anns o = n) :
+      PathCancun t bs anns E i [(i, n)]
+
+/-- whole paths under real Cancun: every transfer of every execution path that stays in blocks free of BLOBHASH,
+BLOBBASEFEE, TLOAD, TSTORE is an edge of the refined graph (in particular: every path of a program that contains none
+of the four opcodes) -/
+theorem C05_path_cancun (t : OpTable) (bs : List Blocks.Block) (anns : List Annotated) (hS : Setup t bs anns)
+    (g g' : Graph) (hg : cfgNew anns = .ok g)
+    (sat : List BTerm → Bool) (hsat : SoundSat sat) (hr : refine sat g = .ok g')
+    (E : Env) (i : Nat) (p : List (Nat × Node)) (hp : PathCancun t bs anns E i p) :
+    ∀ e ∈ p, e ∈ g'.edges := by
+  induction hp with
+  | stop i => intro e he; cases he
+  | step i b a ω entry o hb ha hd hm ho j rest hn _ ih =>
+    intro e he
+    cases he with
+    | head => rw [← hn]; exact C05_refined_cancun t bs anns hS g g' hg sat hsat hr i b a hb ha hm E ω entry hd o ho
+    | tail _ h => exact ih e h
+  | last i b a ω entry o hb ha hd hm ho n hn =>
+    intro e he
+    cases he with
+    | head => rw [← hn]; exact C05_refined_cancun t bs anns hS g g' hg sat hsat hr i b a hb ha hm E ω entry hd o ho
+    | tail _ h => cases h
+
 /-- Without `hm`, `C05_initial_cancun` / `C05_refined_cancun` are false.  The valid Cancun
 program `push1 0; tload; push1 6; jump; jumpdest; stop` (bytes 60 00 5c 60 06 56 5b 00):
 the model of etk's pipeline splits it into three blocks (offsets 0, 3, 6), block 0 being
